@@ -4,6 +4,7 @@
 -/
 import Gama.Model.FullDenote
 import Gama.Lemmas.FullHist
+import Gama.Lemmas.FullStateFacts
 namespace Gama.C04.Full
 open Gama Gama.Ls Gama.C04
 
@@ -26,17 +27,73 @@ theorem denoteF_sspec (alg : Ls.Alg) (p : Problem K) (c : Reg) (inp : Input) (c'
 
 theorem factsF_inputOf (alg : Ls.Alg) (p : Problem K) : FactsF alg p (inputOf alg p) := ⟨rfl, rfl, fun _ => rfl⟩
 
-/-- chol / gso: with the facts of the problem, `directF` (algorithm of the kind, configuration of the state) is
-    `answerF` — a function of the problem, the caller's configuration and the query -/
+/-! ### round 6: `answerF` / `answerS` do not branch on the defect
+
+`directF` (what the symbolic answers denote) evaluates the solver model over `.subset (effective list)` or with the
+configuration as it stands, depending on the singularity flag and the query.  Both are the SAME configuration for the
+solver model: they differ only in `min_x()` (`.all`) versus the materialised list `1..n` (`chol_all`, `gso_all`); for
+svd they coincide literally.  So `directF`, whatever the flag, is the field of ONE run of the solver model under the
+caller's configuration. -/
+
+theorem solver_all (k : Kind) (p : Problem K) :
+    solverOf (algOf k) { p with reg := .subset (allList p.n) } = solverOf (algOf k) { p with reg := .all } := by
+  cases k
+  · exact chol_all p
+  · exact gso_all p
+
+/-- over the effective list = under the caller's configuration -/
+theorem solver_eff (k : Kind) (p : Problem K) (inp : Input) (hn : inp.n = p.n) (s : FState) :
+    solverOf (algOf k) { p with reg := .subset (eff inp s) }
+      = solverOf (algOf k) { p with reg := cfgReg s.useAll s.list } := by
+  unfold eff cfgReg
+  rw [hn]
+  cases s.useAll
+  · rfl
+  · exact solver_all k p
+
+/-- chol / gso: `directF` (algorithm of the kind, configuration of the state) is `answerF` — the field of the solver
+    model on the problem under the caller's configuration; holds for EITHER value of the singularity flag -/
+theorem directF_eq_answerF' (k : Kind) (p : Problem K) (inp : Input) (hn : inp.n = p.n) (s : FState) (sing : Bool)
+    (op : Op) :
+    directF (algOf k) p (cfgReg s.useAll s.list) sing (eff inp s) false op
+      = answerF (algOf k) p s.useAll s.list op := by
+  have hE := solver_eff k p inp hn s
+  cases op <;> cases sing <;> simp [directF, answerF, fieldF, hE]
+
 theorem directF_eq_answerF (k : Kind) (p : Problem K) (inp : Input) (hF : FactsF (algOf k) p inp) (s : FState) (op : Op) :
     directF (algOf k) p (cfgReg s.useAll s.list) (inp.nullity != 0) (eff inp s) false op
-      = answerF (algOf k) p s.useAll s.list op := by
-  simp only [answerF, eff, hF.n, hF.nullity]
+      = answerF (algOf k) p s.useAll s.list op :=
+  directF_eq_answerF' k p inp hF.n s _ op
 
-theorem directF_eq_answerS (p : Problem K) (inp : Input) (hF : FactsF .svd p inp) (s : SState) (op : Op) :
+theorem directF_eq_answerS (p : Problem K) (inp : Input) (_hF : FactsF .svd p inp) (s : SState) (op : Op) :
     directF .svd p (cfgReg (!s.sub) s.list) (inp.nullity != 0 && (seff s).isSome) ((seff s).getD []) true op
       = answerS p s.sub s.list op := by
-  simp only [answerS, seff, hF.nullity]
-  cases s.sub <;> simp
+  cases hs : s.sub <;> cases hb : (inp.nullity != 0) <;> cases op <;>
+    simp [directF, answerS, fieldF, seff, cfgReg, hs]
+
+/-! ### the regular case: the configuration does not matter at all -/
+
+/-- chol / gso: if the solver model reports defect 0 for `p` under one configuration, `answerF` is the same under
+    every configuration the model covers -/
+theorem answerF_regular (k : Kind) (p : Problem K) (ua ua' : Bool) (l l' : Option (List Nat)) (a : Answer K)
+    (h : solverOf (algOf k) { p with reg := cfgReg ua l } = .ok a) (hd : a.defect = 0)
+    (hr : RegCovered (algOf k) p.n (cfgReg ua' l')) (op : Op) :
+    answerF (algOf k) p ua' l' op = answerF (algOf k) p ua l op := by
+  unfold answerF
+  rw [solver_regular (algOf k) (by cases k <;> simp [algOf]) p _ (cfgReg ua' l') a h hd hr, h]
+
+theorem answerS_regular (p : Problem K) (sub sub' : Bool) (l l' : Option (List Nat)) (a : Answer K)
+    (h : solverOf .svd { p with reg := cfgReg (!sub) l } = .ok a) (hd : a.defect = 0) (op : Op) :
+    answerS p sub' l' op = answerS p sub l op := by
+  unfold answerS
+  rw [solver_regular .svd (by simp) p _ (cfgReg (!sub') l') a h hd (fun hc => by cases hc), h]
+
+/-! ### the driver's input -/
+
+/-- an accepted `info` line carries the size and the defect of `inputOf` -/
+theorem FInfo.agrees_spec {f : FInfo} {alg : Ls.Alg} {p : Problem K} (h : f.agrees alg p = true) :
+    f.n = (inputOf alg p).n ∧ f.nullity = (inputOf alg p).nullity := by
+  simp only [FInfo.agrees, Bool.and_eq_true, beq_iff_eq] at h
+  exact h
 
 end Gama.C04.Full
